@@ -188,33 +188,33 @@ func paramsOf(seed uint64) Params {
 
 // Result of one run (one JSON line of the worker protocol).
 type Result struct {
-	Prop     string         `json:"prop"`
-	Variant  string         `json:"variant"`
-	Seed     uint64         `json:"seed"`
-	OK       bool           `json:"ok"`
-	Viol     *Violation     `json:"viol,omitempty"`
-	Reason   string         `json:"reason"`
-	Steps    int            `json:"steps"`
-	SimNs    int64          `json:"sim_ns"`
-	Hash     uint64         `json:"hash"`
-	Preempt  int            `json:"preempt"`
-	Ext      int            `json:"ext"`
-	Created  int            `json:"created"`
-	Kinds    map[string]int `json:"kinds,omitempty"`
-	Counts   map[string]int `json:"counts,omitempty"`
-	Sample   any            `json:"sample,omitempty"`
-	Tape     []vsimrt.Draw  `json:"-"`
-	TapeLen  int            `json:"tape_len"`
-	Diverged string         `json:"diverged,omitempty"`
-	Undecided string        `json:"undecided,omitempty"`
-	Notes    []string       `json:"notes,omitempty"`
-	Trace    []string       `json:"-"`
+	Prop      string         `json:"prop"`
+	Variant   string         `json:"variant"`
+	Seed      uint64         `json:"seed"`
+	OK        bool           `json:"ok"`
+	Viol      *Violation     `json:"viol,omitempty"`
+	Reason    string         `json:"reason"`
+	Steps     int            `json:"steps"`
+	SimNs     int64          `json:"sim_ns"`
+	Hash      uint64         `json:"hash"`
+	Preempt   int            `json:"preempt"`
+	Ext       int            `json:"ext"`
+	Created   int            `json:"created"`
+	Kinds     map[string]int `json:"kinds,omitempty"`
+	Counts    map[string]int `json:"counts,omitempty"`
+	Sample    any            `json:"sample,omitempty"`
+	Tape      []vsimrt.Draw  `json:"-"`
+	TapeLen   int            `json:"tape_len"`
+	Diverged  string         `json:"diverged,omitempty"`
+	Undecided string         `json:"undecided,omitempty"`
+	Notes     []string       `json:"notes,omitempty"`
+	Trace     []string       `json:"-"`
 }
 
 type execOpts struct {
-	replay []vsimrt.Draw
-	strict bool
-	trace  bool
+	replay   []vsimrt.Draw
+	strict   bool
+	trace    bool
 	keepTape bool
 }
 
